@@ -67,8 +67,19 @@ WALKERS = [
 ]
 PAYLOAD_WALKERS = [w['name'] for w in WALKERS if 'HV_PAYLOAD' in ' '.join(w['defines'])]
 MANUAL_WALKERS = [w['name'] for w in WALKERS if 'HV_MANUAL' in w['defines'] and 'HV_RNG_BUILTIN' not in w['defines']]
-for w in WALKERS:
+SELECT_ZOO = {
+    'zs_select': 'C[U[.........]N[.........]U[N[...]O[..].]N[U[..]O[.N[..]].]n[..]u[.N[..]]S[U[..]N[..]]]',   # widths 9, nesting of utilitarian/random/orthogonal/headless
+    'zs_widths': 'C[U[.]N[.]U[..]N[..]U[....]N[....]N[.....]U[........]N[........]R[N[...].]]',              # flat regions of width 1,2,4,5,8
+}
+ZOO.update(SELECT_ZOO)
+SELECTORS = []
+for mname in SELECT_ZOO:
+    for cfg, defs in (('m', ['HV_MANUAL']), ('a', [])):
+        SELECTORS.append(dict(name='select_%s_%s' % (mname, cfg), source='harness/hv_select.cpp', defines=['HV_MACHINE_HEADER="%s.hpp"' % mname] + defs, machine=(mname, SELECT_ZOO[mname])))
+for w in WALKERS + SELECTORS:
     UNITS[w['name']] = w
+UNITS['units_plan'] = unit('units_plan')
+SELECT_NAMES = [w['name'] for w in SELECTORS]
 WALKER_NAMES = [w['name'] for w in WALKERS]
 
 
@@ -114,6 +125,21 @@ PROPS = {
         note='Trusted: the order model (head before sub-states, orthogonal sub-states in declaration order, injected before own on the way down, own before injected on the way up, a phase stops at the first state boundary after consumption).',
         technique='model-based property testing (rapidcheck): exact sequence comparison with a reference order model',
     ),
+    'C07': dict(
+        level='exploration', bins=['units_plan'] + ['walk_z06_plans_m', 'walk_z06_plans_bt5', 'walk_z06_plans_p2'],
+        quick=[dict(bin='units_plan', cases=40000, size=100)] + walk_jobs(['walk_z06_plans_m', 'walk_z06_plans_bt5', 'walk_z06_plans_p2'], 6000, 40),
+        thorough=[dict(bin='units_plan', cases=300000, size=s) for s in (50, 100, 200, 400)] + walk_jobs(['walk_z06_plans_m', 'walk_z06_plans_bt5', 'walk_z06_plans_p2'], 40000, 60),
+        claim='Interleaved append (all seven kinds, cyclic tasks, out-of-region destinations, int payloads) / remove-while-iterating / clear operations across the six regions of a 14-state machine with task capacity 5, 12 and the default are compared, after every operation, with one std::vector per region: iteration order and contents of every plan, append returning false exactly at capacity and changing nothing, freed slots reusable; update() runs the library\'s verifyPlans() with assertions live; canaries around the instance. The plan-heavy walkers additionally edit plans from callbacks while plans execute.',
+        note='Origins are states of the plan\'s region (documented use).',
+        technique='model-based property testing (rapidcheck) of plan storage against per-region vectors',
+    ),
+    'C12': dict(
+        level='exploration', bins=SELECT_NAMES,
+        quick=[dict(bin=n, cases=8000, size=30) for n in SELECT_NAMES], thorough=[dict(bin=n, cases=100000, size=40) for n in SELECT_NAMES] * 2,
+        claim='On two selection machines (flat utilitarian/random regions of width 1,2,4,5,8,9 and nested utilitarian/random/orthogonal/headless regions) every utility and random resolution the library reports is validated in long double: utilize picks a sub-state whose utility is maximal within 4 float ulp, the first one on exact ties; randomize picks a top-rank sub-state with positive utility whose cumulative interval contains r*sum within 2^-20*sum, never none; generator outputs consumed = random regions resolved; the activated configuration follows the reported picks. Generator outputs include values computed from the case\'s own cumulative sums nudged by -2..2 ulp, 1-2^-24, 1-2^-23, 2^-24, 0; utilities include 0, 1e-6, 1e6 and non-dyadic values; ranks -2..2.',
+        note='Trusted: the extended-precision re-evaluation (written from the property statement) and the logger as the source of the picks of evaluated-but-not-activated candidates. Cases whose top-rank sum is not positive are repaired by construction, not filtered.',
+        technique='property-based testing (rapidcheck) with boundary-directed generators; validity predicate in extended precision',
+    ),
     'C08': dict(
         level='exploration', bins=WALKER_NAMES,
         quick=walk_jobs(WALKER_NAMES, 6000, 40), thorough=walk_jobs(WALKER_NAMES, 20000, 60),
@@ -148,6 +174,13 @@ PROPS = {
         claim='All generated histories (including bursts of requests beyond the queue capacity from outside and from callbacks, task appends beyond capacity, endless substitution) run under ASan+UBSan with the library\'s own assertions routed to a handler: no sanitizer report, no assertion, the configuration stays well-formed after over-capacity bursts.',
         note='Known findings F14 and F23 (assertions reachable through the public API) are tolerated only in the exact situation described in KNOWN_FINDINGS.txt. "Never allocates" is observed through an operator-new counter around library calls on the explored paths.',
         technique='fuzzing-style property testing under sanitizers with live assertions (rapidcheck; libFuzzer in the thorough tier)',
+    ),
+    'C17': dict(
+        level='exploration', custom='c17', bins=[],
+        claim='Generated machine structures (320 quick / 6000 thorough, up to 125 states, width 12, depth 7, headless and width-1 regions, all root kinds, plus the zoo) are compiled with static_asserts that compare stateId<>(), regionId<>() and every published count (states, regions, composite/orthogonal regions, orthogonal units, prongs, serialization bits, default task capacity) with an independent depth-first numbering; every structure is spelled twice (template states and separately named structs) and both must agree. At run time the walkers additionally compare control.stateId() of every callback with the state\'s declared id.',
+        note='The generated input is a program; the oracle is evaluated by the compiler. Trusted: the Python DFS of tools/structgen.py (30 lines, shares nothing with the library\'s type-list arithmetic).',
+        technique='generated-program testing: random structures + independently derived static_asserts (compile = evaluate)',
+        assumptions=['identifier types are the defaults (Short = uint8_t): structures stay below 128 states'],
     ),
     'C18': dict(
         level='exploration',
@@ -192,7 +225,7 @@ def specs_for(prop, tier, seed):
 
 
 def jobs_for(prop, tier, seed):
-    return [dict(j) for j in PROPS[prop][tier]]
+    return [dict(j) for j in PROPS[prop].get(tier, [])]
 
 
 NOT_APPLICABLE = {}
